@@ -70,20 +70,26 @@ type Check struct {
 // New parses the standard flags (--tier, --replay) and the VERIF_TIER / VERIF_SEED
 // environment, loads the known-findings file and returns the run state.
 func New(id, level string) *Check {
-	tier := flag.String("tier", "", "quick|thorough")
-	replay := flag.String("replay", "", "replay file")
-	if !flag.Parsed() {
-		flag.Parse()
-	}
 	c := &Check{ID: id, Level: level, start: time.Now()}
-	c.Tier = *tier
+	if flag.Lookup("test.v") == nil {
+		tier := flag.String("tier", "", "quick|thorough")
+		replay := flag.String("replay", "", "replay file")
+		if !flag.Parsed() {
+			flag.Parse()
+		}
+		c.Tier = *tier
+		c.Replay = *replay
+	}
+	// test binaries (E1/E3 harnesses) get tier and replay through the environment
 	if c.Tier == "" {
 		c.Tier = os.Getenv("VERIF_TIER")
+	}
+	if c.Replay == "" {
+		c.Replay = os.Getenv("VERIF_REPLAY")
 	}
 	if c.Tier != "thorough" {
 		c.Tier = "quick"
 	}
-	c.Replay = *replay
 	if s := os.Getenv("VERIF_SEED"); s != "" {
 		if v, err := strconv.ParseInt(s, 10, 64); err == nil {
 			c.Seed = v
